@@ -6,6 +6,22 @@ ids = [json.loads(l)["id"] for l in open(os.path.join(HERE, "properties.jsonl"))
 
 # pid -> (category, text, level_note, technique, design_ref)
 CLAIMS = {
+ "C04": ("other",
+         "Panic reachability with discharge over every function of src/parse.rs and src/parse/lex.rs (incl. the inline lexer callbacks logos pastes into generated code) plus provenance of the span argument of every ParseErr construction (passed on from a token span / cursor, never computed). Decides the no-panic clause for all input strings and a structural necessary condition of 'span lies within the input'.",
+         "Trusted: logos-generated state machine and its token spans, std; token-language facts are read from the #[regex] attributes. Spans are shown to be passed-on token spans, not re-validated numerically.",
+         "MIR panic-site reachability + discharge; def-use provenance of span arguments", "5 C04"),
+ "C19": ("other",
+         "Panic reachability with discharge from both deserializers, both serializers, ObjectFile::link and Simulator::load_obj_file, under the untrusted discipline (no discharge may rest on assembler-only invariants). Holds for every byte string / text / object file.",
+         "Trusted: std, unescaper 0.1.5 (read by hand), the curated panicky-callee table; allocation failure out of scope.",
+         "MIR panic-site reachability + interval/dominator discharge", "5 C19"),
+ "C02": ("other",
+         "No-panic clause by panic reachability from assemble/assemble_debug; plus interval-normalised dominator checks that each error kind has a producing guard with the stated bound (BlockInIO iff new_lc > xFE00, exact-fit x10000, half-open ranges_overlap, both neighbours checked, OverlappingLabels iff address differs, OffsetExternal on external, pass 2 only after pass 1). 'Exactly when' as a whole is not decided.",
+         "Assumes src given to assemble_debug is the parsed text and the AST comes from the parser. Trusted: std, rules/lib.",
+         "MIR panic reachability + dominator/interval guard normalisation", "5 C02"),
+ "C26": ("other",
+         "ErrSpan::first/iter and all ErrSpan conversions have no undischarged panic site (total accessors); AsmErr is only built by AsmErr::new; at each of the AsmErr::new call sites reachable from assemble* the span is a stored span (Stmt.span, .orig span) or Label::span()/SymbolData::span(key) passed on without arithmetic, and label errors use a label span.",
+         "Spans stored in the AST are trusted to come from the parser of the same source. Link-error spans: only totality of the accessors is claimed.",
+         "MIR panic reachability + def-use provenance predicates", "5 C26"),
  "C16": ("other",
          "Static panic-reachability with discharge over the type-checked MIR of every function defined under src/sim* and everything it reaches: each Assert terminator and each call to a panicking std entry must be discharged by interval/guard analysis, a re-checked invariant or a reviewed table entry. Decides the no-panic clause for all machine states; it does not execute anything.",
          "Trusted: rustc MIR construction, mirfacts, std/rand beyond the curated panicky-callee list; assumes the OS source assembles, timer ranges are non-empty, host-supplied devices do not panic; allocation failure is out of scope.",
